@@ -14,7 +14,7 @@ demos=()
 for f in $O/*_test.go; do
   [ -e "$f" ] || continue
   b=$(basename $f)
-  d=$(grep -o "[A-Za-z0-9_./-]*$b" $O/demo_path.txt | grep -v "^/tmp" | head -1)
+  d=$(grep -o "[A-Za-z0-9_./-]*$b" $O/demo_path.txt | grep -v "^/tmp" | grep "/" | sed 's#^\./##' | head -1)
   [ -z "$d" ] && d=$(cd $S/wt && git status --short | grep "$b" | awk '{print $2}' | head -1)
   [ -z "$d" ] && { echo "cannot place $b" >> $L; continue; }
   demos+=("$d"); mkdir -p $(dirname $d)
